@@ -8,7 +8,13 @@ contains everything the program touches.  The pinned construction is NOT a trans
 all accepted programs: two defect classes remain in the model exactly as coded
 (`C19_zero_trip_counterexample`, `C19_hidden_alias_counterexample`), so the full statement
 `C19_statement` is refuted and the theorem is proved under the decidable side condition
-`safe p ρ` that excludes exactly those two classes. -/
+`safe p ρ` that excludes exactly those two classes.
+
+OUTSIDE the model: assignments to array sections that stay in array notation after
+`preprocess_trans` (differing strides) and the acceptance rule `AssignmentTrans._array_ranges_match`
+(every RHS occurrence of the LHS array must have identical subscripts).  They are covered by the
+check's array-notation stream only: elementwise expansion to MiniF and the transpose test on unit
+vectors (harness/props/c19_real.py `export_routine`). -/
 namespace C19
 open MiniF
 
